@@ -3,6 +3,7 @@ package props
 import (
 	"fmt"
 	"go/token"
+	"go/types"
 	"sort"
 	"strings"
 
@@ -125,6 +126,27 @@ func c04(r *Report) {
 	// next is invoked only by the middleware itself
 	r.Own(OwnSpec{ID: "C04.own.accessGranted", Op: "call accessGranted", Sites: p.CallSites(Fn(tv2, "", "accessGranted"), true), Min: 1,
 		Owners: map[string]string{"(http/tokenV2.middlewareImpl).checkConnectionAuthorization": "after all checks"}})
+	// the next handler (any value of type echo.HandlerFunc) is invoked, in the token middleware package, only by the two
+	// functions whose invocation is gated above: no side door (e.g. a "preflight" exemption) in front of the check
+	var dyn []Site
+	p.EachInstr(func(fn *ssa.Function, in ssa.Instruction) {
+		ci, ok := in.(ssa.CallInstruction)
+		if !ok || !strings.HasPrefix(p.FuncName(Outer(fn)), "http/tokenV2.") && !strings.HasPrefix(p.FuncName(Outer(fn)), "(http/tokenV2.") && !strings.HasPrefix(p.FuncName(Outer(fn)), "(*http/tokenV2.") {
+			return
+		}
+		cc := ci.Common()
+		if cc.IsInvoke() || cc.StaticCallee() != nil {
+			return
+		}
+		if n, ok := types.Unalias(cc.Value.Type()).(*types.Named); ok && n.Obj().Name() == "HandlerFunc" && n.Obj().Pkg() != nil && n.Obj().Pkg().Path() == "github.com/labstack/echo/v4" {
+			dyn = append(dyn, Site{Fn: fn, Instr: in, Pos: in.Pos(), Note: "invokes an echo.HandlerFunc value"})
+		}
+	})
+	r.Own(OwnSpec{ID: "C04.own.next-handler", Op: "invoke the next handler (an echo.HandlerFunc value)", Sites: dyn, Min: 2,
+		Owners: map[string]string{
+			"(http/tokenV2.middlewareImpl).checkConnectionAuthorization": "the skipper branch (C04.mw.skip)",
+			"http/tokenV2.accessGranted":                                 "after all token checks (C04.mw.*)",
+		}})
 	r.Own(OwnSpec{ID: "C04.own.check", Op: "call checkConnectionAuthorization", Sites: p.CallSites(Fn(tv2, "middlewareImpl", "checkConnectionAuthorization"), true), Min: 1,
 		Owners: map[string]string{"(http/tokenV2.middlewareImpl).Handler": "the echo middleware"}})
 
@@ -132,7 +154,7 @@ func c04(r *Report) {
 	cis := p.Func(tv2, "", "credentialIsSecure")
 	sigs := Fn(jwsPkg, "Message", "Signatures")
 	_ = sigs
-	r.Gate(Gate{ID: "C04.secure.parse", Fn: cis, Effect: SuccessReturn(), Check: ErrCheck(Fn(jwsPkg, "", "ParseString"))})
+	r.Gate(Gate{ID: "C04.secure.parse", Fn: cis, Effect: SuccessReturn(), Check: compactParse()})
 	r.Gate(Gate{ID: "C04.secure.alg-allowlist", Fn: cis, Effect: SuccessReturn(), Check: CallCheck(Fn(tv2, "", "acceptableSignatureAlgorithm"), -1, IsTrue), ForEach: true})
 	hdr := func(m string) Callee { return Fn(jwsPkg, "Headers", m) }
 	r.Gate(Gate{ID: "C04.secure.no-jwk", Fn: cis, Effect: SuccessReturn(), ForEach: true, Check: CmpCheck("JWK() == nil", token.EQL, CallV(hdr("JWK"), -1), NilV(), true)})
@@ -163,6 +185,16 @@ func c04(r *Report) {
 	r.Gate(Gate{ID: "C04.binds.root-unconditional", Fn: p.Func(h, "Engine", "Configure"), Effect: SuccessReturn(), Check: Check{Desc: "MultiEcho.Bind(\"/\", Public.Address) err == nil", Call: ptr(Fn(h, "MultiEcho", "Bind")), Result: -1, Pass: ErrNil,
 		Filter: func(ci ssa.CallInstruction) bool { return FieldPathEnds(CallArg(ci.Common(), 1), "Public", "Address") }}})
 	c04Binds(r)
+	// the two listeners are different listeners: the dispatcher re-uses the server of an address that is already bound, so
+	// equal addresses put /internal, /status, /metrics and /health on the public listener (fix: that was accepted silently)
+	cfgFn := p.Func(h, "Engine", "Configure")
+	r.Gate(Gate{ID: "C04.binds.addresses-differ", Fn: cfgFn, Effect: CallEffect(Fn(h, "MultiEcho", "Bind")),
+		Check: CmpCheck("Internal.Address == Public.Address is false", token.EQL,
+			VPat{Desc: "config.Internal.Address", M: func(v ssa.Value) bool { return FieldPathEnds(v, "Internal", "Address") }},
+			VPat{Desc: "config.Public.Address", M: func(v ssa.Value) bool { return FieldPathEnds(v, "Public", "Address") }}, false)})
+	// a request that fails authentication has no side effect: the (shared-bucket) rate limiter sits INSIDE the auth middleware,
+	// i.e. it is installed after it (echo runs middleware in registration order), and only once auth was installed
+	r.Gate(Gate{ID: "C04.install.rate-limiter-inside-auth", Fn: cfgFn, Effect: CallEffect(Fn(h, "Engine", "applyRateLimiterMiddleware")), Check: ErrCheck(Fn(h, "Engine", "applyAuthMiddleware"))})
 	c04Routes(r)
 	// listeners get routes only through the dispatcher
 	r.Own(OwnSpec{ID: "C04.own.server-add", Op: "call EchoServer.Add on a concrete listener", Sites: p.CallSites(Fn(h, "EchoServer", "Add"), true), Min: 1,
